@@ -3,10 +3,13 @@
    nat stays Peano, N/positive stay the library inductives. No Extract Constant. *)
 Require Extraction.
 Require Import ExtrOcamlBasic.
-From BB Require Import BN Brute Diagram Checks.
+From BB Require Import BN Brute Diagram Checks Strict PetriNet Control.
 Extraction Language OCaml.
 Extraction "bbmodel_core.ml"
   net_of_tables percolate_b max_traps_b min_traps_b is_trap_b sources_b attractors_b
   node_attractors_b node_attractors_of check_cover check_seeds check_seeds_sound check_sets reduced_fixed_b reach_list const_on_b traps_in
   subspace intersect merge space_key in_space eqb_space
+  percolate_strict_b percolate_strict_ord conflicts_b single_ldois single_drivers
+  pn_faithful_b restrict_pn reduce_pn pn_sources trap_program deadlock_program net_to_pn
+  override forced_b successions find_drivers drivers_of_succession succession_control
   init step run depth minimal_ids find_node successors is_minimal size get.
